@@ -5,7 +5,7 @@
 // observation record per call is written; the TLC trace spec has one step per record and compares
 // the observed body list with ParForOutcome(input) and evaluates the C12/C13 invariants on it.
 //
-//   --out FILE --suite i8|wide|gran|nest|static17 --tier quick|thorough --seed S [--n N]
+//   --out FILE --suite i8|wide|gran|nest|multi|mixed|static17 --tier quick|thorough --seed S [--n N]
 //
 // TLC integers are 32-bit.  Positions of 32/64-bit index types are therefore logged in a FRAME:
 // the start is mapped to a small representative s0 with the same sign and the same residue modulo
@@ -64,6 +64,10 @@ struct RecCtx {
   std::string head; // the input part of the record
   i128 realStart = 0;
   long long s0 = 0;
+  // index-form calls (suite mixed): visits per index of [start, end) and the number of visits outside of it
+  std::unique_ptr<std::atomic<uint8_t>[]> counts;
+  size_t ncounts = 0;
+  std::atomic<size_t> nstray{0};
 };
 
 static FILE* gOut = nullptr;
@@ -166,6 +170,7 @@ struct CallCfg {
   int pool = 3;
   int api = 0; // 0: (start,end) overload  1: ChunkedRange overload  2: states overload
   bool concurrentSet = false;
+  int ix = 0; // 1: the INDEX-form overloads f(i) / f(state, i) (api 0 / 2), see suiteMixed
   int nested = 0; // 1: issue the call from inside a parallel_for body on the same pool (inline path)
                   // 2: issue it from a plain task running on a worker of the same pool (rec = 2)
 };
@@ -219,7 +224,7 @@ static std::shared_ptr<RecCtx> makeCtx(T s, T e, const CallCfg& cc, size_t poolT
       sizeof buf,
       "{\"e\":\"pf\",\"w\":%d,\"sg\":%d,\"tmin\":%lld,\"tmax\":%lld,\"ws\":%d,\"s\":%lld,\"en\":%lld,"
       "\"mode\":\"%s\",\"c\":%lld,\"mt\":%lld,\"wait\":%d,\"mi\":%u,\"g\":%u,\"N\":%zu,\"l3\":%zu,"
-      "\"rec\":%d,\"api\":%d",
+      "\"rec\":%d,\"api\":%d,\"ix\":%d",
       bits,
       sg ? 1 : 0,
       tmin,
@@ -236,7 +241,8 @@ static std::shared_ptr<RecCtx> makeCtx(T s, T e, const CallCfg& cc, size_t poolT
       poolThreads,
       dispenso::CpuSet::l3CacheGroups().size(),
       cc.nested,
-      cc.api + (cc.concurrentSet ? 10 : 0));
+      cc.api + (cc.concurrentSet ? 10 : 0),
+      cc.ix);
   c->head = buf;
   return c;
 }
@@ -289,6 +295,92 @@ static void invoke(TaskSetT& ts, T s, T e, const CallCfg& cc, const std::shared_
   c->startedAtReturn = c->started.load(std::memory_order_acquire);
 }
 
+// ------------------------------------------------------------------ index-form overloads
+// parallel_for(taskSet, start, end, f(i)) and the per-thread-state variant f(state, i), called with start and end of
+// DIFFERENT integer types (A, B): the loop runs in T = common_type<A, B> and the body must be handed every index of
+// [start, end) in T exactly once - also the indices above the maximum of the narrower type.  The body counts the
+// visits per index; after the call returned the counters are written as the exact multiset of visits in the
+// record's usual form: layer k is the list of maximal runs [b, e) of indices visited at least k times (visits
+// outside [start, end) are unit runs [i, i + 1)).  Every index was visited exactly once <=> that list is a
+// partition of [start, end), which is what the trace spec's C12Partition decides (chunk boundaries are not
+// observable through this overload, so Conforms only asks for a complete record; "ix":1).
+template <class A, class B, class TaskSetT>
+static void invokeIx(TaskSetT& ts, A s, B e, const CallCfg& cc, const std::shared_ptr<RecCtx>& c) {
+  using T = std::common_type_t<A, B>;
+  auto body = [c](T i) {
+    c->started.fetch_add(1, std::memory_order_relaxed);
+    i128 d = (i128)i - c->realStart;
+    if (d >= 0 && d < (i128)c->ncounts) {
+      if (c->counts[(size_t)d].load(std::memory_order_relaxed) < 200)
+        c->counts[(size_t)d].fetch_add(1, std::memory_order_relaxed);
+    } else {
+      size_t k = c->nstray.fetch_add(1, std::memory_order_relaxed);
+      if (k < 32)
+        c->slots[k] = std::make_pair((i128)i, (i128)i + 1);
+    }
+    c->finished.fetch_add(1, std::memory_order_release);
+  };
+  dispenso::ParForOptions opt = cc.opt;
+  opt.defaultChunking =
+      cc.mode == kAutoM ? dispenso::ParForChunking::kAdaptive : dispenso::ParForChunking::kStatic;
+  if (cc.api == 2) {
+    std::vector<int> states;
+    dispenso::parallel_for(
+        ts, states, []() { return 0; }, s, e, [body](int&, T i) { body(i); }, opt);
+    if (!opt.wait)
+      ts.wait(); // `states` must outlive the work
+  } else {
+    dispenso::parallel_for(ts, s, e, body, opt);
+  }
+  if (!opt.wait)
+    ts.wait();
+  c->finishedAtReturn = c->finished.load(std::memory_order_acquire);
+  c->startedAtReturn = c->started.load(std::memory_order_acquire);
+  // counters -> runs
+  size_t n = std::min<size_t>(c->nstray.load(), 32);
+  for (unsigned layer = 1; layer <= 4; ++layer) {
+    size_t i = 0;
+    bool any = false;
+    while (i < c->ncounts) {
+      if (c->counts[i].load(std::memory_order_relaxed) < layer) {
+        ++i;
+        continue;
+      }
+      size_t j = i;
+      while (j < c->ncounts && c->counts[j].load(std::memory_order_relaxed) >= layer)
+        ++j;
+      any = true;
+      if (n < c->slots.size())
+        c->slots[n++] = std::make_pair(c->realStart + (i128)i, c->realStart + (i128)j);
+      i = j;
+    }
+    if (!any)
+      break;
+  }
+  c->n.store(n);
+}
+
+static void enqueueRecord(const std::shared_ptr<RecCtx>& c);
+
+template <class A, class B>
+static void runMixed(Pools& pools, A s, B e, const CallCfg& cc) {
+  using T = std::common_type_t<A, B>;
+  dispenso::ThreadPool& pool = pools.get(cc.pool);
+  auto c = makeCtx<T>((T)s, (T)e, cc, (size_t)pool.numThreads());
+  c->ncounts = (T)e > (T)s ? (size_t)((i128)(T)e - (i128)(T)s) : 0;
+  c->counts.reset(new std::atomic<uint8_t>[c->ncounts + 1]);
+  for (size_t i = 0; i <= c->ncounts; ++i)
+    c->counts[i].store(0, std::memory_order_relaxed);
+  if (cc.concurrentSet) {
+    dispenso::ConcurrentTaskSet ts(pool);
+    invokeIx<A, B>(ts, s, e, cc, c);
+  } else {
+    dispenso::TaskSet ts(pool);
+    invokeIx<A, B>(ts, s, e, cc, c);
+  }
+  enqueueRecord(c);
+}
+
 template <class T>
 static void runCase(Pools& pools, T s, T e, const CallCfg& cc) {
   dispenso::ThreadPool& pool = pools.get(cc.pool);
@@ -325,6 +417,10 @@ static void runCase(Pools& pools, T s, T e, const CallCfg& cc) {
   } else {
     call();
   }
+  enqueueRecord(c);
+}
+
+static void enqueueRecord(const std::shared_ptr<RecCtx>& c) {
   std::lock_guard<std::mutex> l(gOutMu);
   gPending.push_back(c);
   // Records are written with a delay of 512 further calls (a body that runs after its call
@@ -548,6 +644,69 @@ static void suiteMulti(Pools& pools, Rng& r, int n) {
   }
 }
 
+// Index-form overloads with MIXED-WIDTH start / end types (A narrower than B, and the reverse as a control): ranges
+// that cross the maximum of the narrower type (the loop index must not be narrowed to the type of `start` on its way
+// to the body), ranges that start low and pass it, and ranges that fit.  Static and adaptive chunking, stateless and
+// per-thread-state variant, wait and no-wait, TaskSet and ConcurrentTaskSet, pool sizes 0..20.
+template <class A, class B>
+static void mixedOne(Pools& pools, Rng& r, bool big) {
+  using T = std::common_type_t<A, B>;
+  const i128 narrowMax = std::min<i128>((i128)std::numeric_limits<A>::max(), (i128)std::numeric_limits<B>::max());
+  const i128 bMax = (i128)std::numeric_limits<B>::max(), aMax = (i128)std::numeric_limits<A>::max();
+  i128 S, E;
+  switch (big ? 1 : r.below(4)) {
+    case 0:
+    case 3: // crosses the maximum of the narrower type
+      S = narrowMax - (i128)r.below(200);
+      E = narrowMax + 1 + (i128)r.below(200);
+      break;
+    case 1: // starts low, passes the maximum of the narrower type (only where that is cheap)
+      S = (i128)r.below(20);
+      if (narrowMax <= 255)
+        E = narrowMax + (i128)r.below(800);
+      else if (big && narrowMax <= 65535)
+        E = narrowMax + 1 + (i128)r.below(5000);
+      else
+        E = S + (i128)r.below(300);
+      break;
+    default: // fits
+      S = (i128)r.below(60);
+      E = S + (i128)r.below(narrowMax <= 255 ? 60 : 300);
+      break;
+  }
+  S = std::min(S, aMax);
+  E = std::min(E, bMax);
+  CallCfg cc = randCfg(r, r.below(2) ? kStaticM : kAutoM, 1000);
+  cc.api = r.below(2) ? 0 : 2;
+  cc.ix = 1;
+  if (r.below(12) == 0)
+    cc.pool = 20;
+  (void)sizeof(T);
+  runMixed<A, B>(pools, (A)S, (B)E, cc);
+}
+
+static void suiteMixed(Pools& pools, Rng& r, int n) {
+  for (int k = 0; k < n; ++k) {
+    bool big = k % 64 == 7; // a few long ranges (0 .. above 65536 for a 16-bit start)
+    switch (big ? 3 + (int)r.below(2) * 3 : (int)r.below(14)) {
+      case 0: mixedOne<uint8_t, int>(pools, r, big); break;
+      case 1: mixedOne<uint8_t, size_t>(pools, r, big); break;
+      case 2: mixedOne<int8_t, int>(pools, r, big); break;
+      case 3: mixedOne<uint16_t, size_t>(pools, r, big); break;
+      case 4: mixedOne<uint16_t, uint32_t>(pools, r, big); break;
+      case 5: mixedOne<int16_t, int>(pools, r, big); break;
+      case 6: mixedOne<uint16_t, int64_t>(pools, r, big); break;
+      case 7: mixedOne<int16_t, int64_t>(pools, r, big); break;
+      case 8: mixedOne<uint32_t, uint64_t>(pools, r, big); break;
+      case 9: mixedOne<int32_t, int64_t>(pools, r, big); break;
+      case 10: mixedOne<int, size_t>(pools, r, big); break; // like a literal 0 with a size_t end above 2^31
+      case 11: mixedOne<size_t, uint16_t>(pools, r, big); break; // wide start, narrow end (control)
+      case 12: mixedOne<int, uint8_t>(pools, r, big); break;
+      default: mixedOne<int64_t, int64_t>(pools, r, big); break; // same type (control)
+    }
+  }
+}
+
 template <class T>
 static void suiteNest(Pools& pools, Rng& r, int n) {
   for (int k = 0; k < n; ++k) {
@@ -614,6 +773,8 @@ int main(int argc, char** argv) {
     suiteMulti<uint8_t>(pools, r, n / 6);
     suiteMulti<int64_t>(pools, r, n / 6);
     suiteMulti<uint16_t>(pools, r, n / 6);
+  } else if (suite == "mixed") {
+    suiteMixed(pools, r, n);
   } else if (suite == "nest") {
     suiteNest<int32_t>(pools, r, n);
     suiteNest<uint8_t>(pools, r, n / 2);
